@@ -493,6 +493,21 @@ Section Main.
   Lemma resave_same M : pm_extra M = None -> fst (to_text (snd (to_text M))) = fst (to_text M).
   Proof. destruct M as [a b c d e f0 g0 h0]. cbn [Persist.pm_extra]. intros ->. reflexivity. Qed.
 
+  (* … and with any extra_data the second document has the same content as the
+     first (key by key; the ORDER of the top-level keys can differ:
+     Refuted/C03_resave_extra_data.v) *)
+  Lemma resave_content M k :
+    d_get (fst (to_text (snd (to_text M)))) k = d_get (fst (to_text M)) k.
+  Proof.
+    destruct (pm_extra M) as [x|] eqn:E; [|now rewrite resave_same].
+    rewrite (to_text_get (snd (to_text M)) k), (to_text_get M k).
+    unfold Persist.to_text at 1 2 3 4 5. cbn [snd pm_filename pm_hash pm_cycles pm_extra]. rewrite E.
+    replace (saved_cells (snd (to_text M))) with (saved_cells M) by (destruct M; reflexivity).
+    destruct (str_eqb k_filename k) eqn:R1; auto. destruct (str_eqb k_cells k) eqn:R2; auto.
+    destruct (str_eqb k_hash k) eqn:R3; auto. destruct (str_eqb k_cycles k) eqn:R4; auto.
+    now rewrite d_get_del, R2, !d_get_set, R1, R2, R3, R4.
+  Qed.
+
   (* -------------------------------------------------------------- formats *)
   Lemma read_write (print : pyval -> str) (parse : str -> pyval) :
     (forall v, parse (print v) = v) -> forall f, read_file parse (write_file print f) = f.
@@ -514,20 +529,19 @@ Section Final.
   Notation roundtrip := (roundtrip_pkl G cdeps csem rsem).
   Notation sem := (pm_sem csem rsem).
 
-  (* the hypotheses shared by the round-trip theorems *)
-  Definition persist_ok (M : pmodel) : Prop :=
-    pm_ok G cdeps M /\ wf (pm_wb M) /\ code_nonblank csem rsem
-    /\ Inv (pm_wb M) (sem M) (pm_state M) /\ no_eq_text M.
-
-  Theorem abs_roundtrip M : persist_ok M ->
+  Theorem abs_roundtrip M :
+    pm_ok G cdeps M -> wf (pm_wb M) -> code_nonblank csem rsem ->
+    Inv (pm_wb M) (sem M) (pm_state M) -> no_eq_text M ->
     exists M', roundtrip M = Ok M' /\ abs M' = abs M.
   Proof.
-    intros (OK & WF & CNB & I & NE). eexists. split.
+    intros OK WF CNB I NE. eexists. split.
     - apply from_text_ok; eauto.
     - now apply abs_same.
   Qed.
 
-  Theorem equiv_roundtrip M : persist_ok M ->
+  Theorem equiv_roundtrip M :
+    pm_ok G cdeps M -> wf (pm_wb M) -> code_nonblank csem rsem ->
+    Inv (pm_wb M) (sem M) (pm_state M) -> no_eq_text M ->
     stored_ok (pm_wb M) (sem M) -> allcells (pm_wb M) (pm_state M) ->
     inputs_exact (pm_wb M) (st_cache (pm_state M)) ->
     exists M', roundtrip M = Ok M' /\
@@ -536,7 +550,7 @@ Section Final.
         /\ snd (run (pm_wb M) (sem M) (pm_state M) h) =
            run_spec (pm_wb M) (sem M) (st_cache (pm_state M)) h.
   Proof.
-    intros (OK & WF & CNB & I & NE) SO AC EX. eexists. split.
+    intros OK WF CNB I NE SO AC EX. eexists. split.
     - apply from_text_ok; eauto.
     - intros h F. split.
       + now apply (equiv G cdeps csem rsem M).
@@ -546,12 +560,14 @@ Section Final.
         * apply post_history_ok; auto. now apply sem_of_nonblank.
   Qed.
 
-  Theorem idempotent M : persist_ok M ->
+  Theorem idempotent M :
+    pm_ok G cdeps M -> wf (pm_wb M) -> code_nonblank csem rsem ->
+    Inv (pm_wb M) (sem M) (pm_state M) -> no_eq_text M ->
     exists M', roundtrip M = Ok M' /\
       saved_cells G M' = saved_cells G M /\
       forall k, d_get (fst (to_text G M')) k = d_get (fst (to_text G M)) k.
   Proof.
-    intros (OK & WF & CNB & I & NE). eexists. split; [apply from_text_ok; eauto|].
+    intros OK WF CNB I NE. eexists. split; [apply from_text_ok; eauto|].
     pose proof (resaved_cells G cdeps csem rsem M OK WF I NE CNB) as RC.
     split; [exact RC|]. intros k.
     rewrite (to_text_get G _ k), (to_text_get G M k), RC.
